@@ -115,9 +115,24 @@ def main():
     def m_str_eq(e, m, a):
         return a[0][1] == a[1][1]
 
+    def handle_of(h):
+        """operands are real IdedExpr values of various shapes; their handle is the id field"""
+        if isinstance(h, list) and len(h) == 2 and isinstance(h[0], tuple) and h[0][0] == "opid":
+            return h[0][1]
+        return h[1]
+
+    def m_get_variable(e, m, a):
+        # a variable lookup on behalf of an operand counts as evaluating that operand
+        name = deref(e, a[1])
+        idx = cur.get("ident_owner", {}).get(name[1] if isinstance(name, tuple) else name)
+        cur["node"].events.append(("resolve", idx))
+        if idx is None:
+            raise Unsupported("lookup of an unknown identifier %r" % (name,))
+        return cur["node"].results[idx] if not isinstance(idx, str) else cur["node"].results_by_handle[idx]
+
     def m_resolve(e, m, a):
         h = e.read_path(a[0].frame, a[0].local, list(a[0].proj))
-        idx = h[1]
+        idx = handle_of(h)
         cur["node"].events.append(("resolve", idx))
         if cur["node"].events.count(("resolve", idx)) > 1:
             cur["double"] = True
@@ -243,6 +258,7 @@ def main():
         (r"^<std::string::String as Deref>::deref$", m_as_str),
         (r"^<str as PartialEq>::eq$", m_str_eq),
         (r"^Value::resolve$", m_resolve),
+        (r"^context::Context::<'_>::get_variable::<.*>$", m_get_variable),
         (r"^<std::result::Result<.*, ExecutionError> as Try>::branch$", m_try_branch),
         (r"^<std::result::Result<Value, ExecutionError> as FromResidual<std::result::Result<Infallible, ExecutionError>>>::from_residual$", m_from_residual),
         (r"^<Value as Add>::add$", m_binop("add")), (r"^<Value as Sub>::sub$", m_binop("sub")),
@@ -442,19 +458,33 @@ def main():
                     mdl.eval(i0, model_completion=True), mdl.eval(i1, model_completion=True), mdl.eval(b0, model_completion=True), mdl.eval(b1, model_completion=True)))
         return problems
 
-    def run_scenario(opc, ks):
+    def operand_expr(j, shape):
+        """an operand expression of the given syntactic shape whose id field carries the handle"""
+        hid = ("opid", j)
+        if shape == "ident":
+            return [hid, ("enum", "Expr::Ident", [("string", "v%d" % j)])]
+        if shape == "select":
+            inner = {0: [("opid", "inner%d" % j), ("enum", "Expr::Ident", [("string", "w%d" % j)])]}
+            return [hid, ("enum", "Expr::Select", [[[[Ref(inner, 0, ())]], ("string", "field"), False]])]
+        if shape == "literal":
+            return [hid, ("enum", "Expr::Literal", [("enum", "Val::Null", [])])]
+        return [hid, ("enum", "Expr::Call", [[("string", "g%d" % j), ("None",), ("vec", [])]])]
+
+    def run_scenario(opc, ks, shapes=None):
         nonlocal status
         name = ops[opc]
         nargs = len(ks)
+        shapes = shapes or ["call"] * nargs
         node = Node(name, [R[j][ks[j]] for j in range(nargs)] + [R[j]["null"] for j in range(nargs, 3)])
-        expr = [7, ("enum", "Expr::Call", [[("string", name), ("None",), ("vec", [("operand", j) for j in range(nargs)])]])]
+        expr = [7, ("enum", "Expr::Call", [[("string", name), ("None",), ("vec", [operand_expr(j, shapes[j]) for j in range(nargs)])]])]
         pseudo = {0: expr}
         eng = new_engine()
         stats["scenarios"] += 1
 
         def entry(e):
             cur.clear()
-            cur.update({"node": node, "eq": eq_sym, "cmp_some": cmp_some, "ord": ord_sym})
+            cur.update({"node": node, "eq": eq_sym, "cmp_some": cmp_some, "ord": ord_sym,
+                        "ident_owner": dict([("v%d" % j, j) for j in range(3)] + [("w%d" % j, j) for j in range(3)])})
             node.events = []
             return e.call_fn(fn, [Ref(pseudo, 0, ()), Opaque("ctx")])
 
@@ -492,10 +522,9 @@ def main():
         stats["solver_s"] += eng.stats["solver_s"]
         stats["functions"] |= eng.stats["functions"]
 
-    def run_call_scenario(nargs, has_target, declared, target_kind):
-        """a call to a non-operator function `f`"""
+    def run_call_scenario(nargs, has_target, declared, target_kind, name="f"):
+        """a call to a non-operator function"""
         nonlocal status
-        name = "f"
         node = Node(name, [("enum", "Result::Ok", [("abs_val", "arg%d" % j)]) for j in range(nargs)])
         tres = R[0][target_kind]
         node.results_by_handle = {"T": tres}
@@ -505,9 +534,9 @@ def main():
         pseudo = {0: expr}
         eng = new_engine()
         stats["scenarios"] += 1
-        desc = {"operator": "call f/%d %s target, %s" % (nargs, "with" if has_target else "no", "declared" if declared else "undeclared"),
+        desc = {"operator": "call %s/%d %s target, %s" % (name, nargs, "with" if has_target else "no", "declared" if declared else "undeclared"),
                 "opcode": "CALL", "operands": [target_kind] if has_target else [],
-                "call_replay": [nargs, int(has_target), int(declared), int(target_kind == "err")]}
+                "call_replay": [nargs, int(has_target), int(declared), int(target_kind == "err"), {"f": 0, "_f": 1, "@f": 2}.get(name, 0)]}
 
         def entry(e):
             cur.clear()
@@ -567,9 +596,22 @@ def main():
                 for declared in (True, False):
                     for tk in (["int", "err"] if has_target else ["null"]):
                         run_call_scenario(nargs, has_target, declared, tk)
+                        if declared:
+                            # host functions may be named like the parser's internal operators
+                            run_call_scenario(nargs, has_target, declared, tk, "_f")
+                            run_call_scenario(nargs, has_target, declared, tk, "@f")
         for opc in binary:
             for ks in itertools.product(kinds, kinds):
                 run_scenario(opc, list(ks))
+        # the same nodes with operands of other syntactic shapes (identifier, field selection, literal):
+        # an evaluator that peeks at an operand's shape must still evaluate nothing it may skip
+        for opc in ("LOGICAL_AND", "LOGICAL_OR", "ADD", "EQUALS"):
+            for sh in itertools.product(["ident", "select", "literal"], repeat=2):
+                for ks in (["bool", "bool"], ["bool", "err"], ["int", "int"]):
+                    run_scenario(opc, list(ks), list(sh))
+        for sh in itertools.product(["ident", "select", "literal"], repeat=3):
+            for ks in (["bool", "int", "bool"], ["bool", "err", "err"]):
+                run_scenario("CONDITIONAL", list(ks), list(sh))
         for opc in unary:
             for k in kinds:
                 run_scenario(opc, [k])
